@@ -207,7 +207,7 @@ def buildTarget (var : Variant) (reqPath : Path) (query : List Char) (ep : Endpo
     `http.NewRequestWithContext(ctx, method, targetURL.String(), body)`, i.e. the target is
     rendered and parsed again by url.Parse, for which a raw '#' in the query starts a fragment
     (never sent). `.fixed`: after fixes/C16-query-fragment.patch the raw query is restored. -/
-def activeQuery : Variant := .pinned
+def activeQuery : Variant := .fixed
 
 /-- the path as `url.URL.String()` renders it next to a host (and as it is parsed back): a path that
     does not start with '/' gets one -/
@@ -229,7 +229,7 @@ def wireQuery (var : Variant) (q : List Char) : List Char :=
     a prefix of an alias path (/olla/lmstudio/…, /olla/lm_studio/… normalise to lm-studio), so for
     those routes nothing is stripped. `.fixed`: after fixes/C16-provider-alias-prefix.patch it
     strips "/olla/" + the provider segment as written. -/
-def activeAlias : Variant := .pinned
+def activeAlias : Variant := .fixed
 
 /-- the prefix handed to util.StripPrefix by the handler serving a route: `asWritten` is the
     mount the request used (without its trailing slash for provider routes), `normalised` the
